@@ -8,7 +8,7 @@ from . import C07
 
 ID = 'C11'
 PROFILES = ['dev']
-BOUNDS = {'text level': 'through the real lexer + parser + interpreter: poetic number texts of <= 2 (thorough 3) elements out of 26 spellings (quick: all 1-element and every 4th 2-element text; thorough: all 2-element and every 8th 3-element text) (word lengths 1, 2, 3, 9, 10, 11, 20; apostrophes inside / leading / trailing; \'s / \'re suffixes; hyphens; keywords as words; capitals; non-ASCII letters), each optionally followed by a period or a comma, in `X is ...` and `Rock .. like ...`: the printed number equals the numeral the words spell (exact for integers, <= 4 ulp otherwise); long literals of 3..=16 (thorough 40) words with 4 period placements; `X says <text>` with 0..=2 (thorough 3) symbolic characters (any of ASCII ∪ R except line feed, quote, open parenthesis): the literal is exactly the text; 27 right-hand sides starting with a literal word / negative number are ordinary expressions',
+BOUNDS = {'text level': 'through the real lexer + parser + interpreter: poetic number texts of <= 2 (thorough 3) elements out of 26 spellings (quick: all 1-element and every 4th 2-element text; thorough: all 2-element and every 8th 3-element text) (word lengths 1, 2, 3, 9, 10, 11, 20; apostrophes inside / leading / trailing; \'s / \'re suffixes; hyphens; keywords as words; capitals; non-ASCII letters), each optionally followed by a period or a comma, plus 192 texts with a digit run / `formula-1` / the list keywords `and` / `or` as the second chunk, in `X is ...` and `Rock .. like ...`: the printed number equals the numeral the words spell (exact for integers, <= 4 ulp otherwise); long literals of 3..=16 (thorough 40) words with 4 period placements; `X says <text>` with 0..=2 (thorough 3) symbolic characters (any of ASCII ∪ R except line feed, quote, open parenthesis): the literal is exactly the text; 27 right-hand sides starting with a literal word / negative number are ordinary expressions',
           'digit rule': 'literals of 1..=6 elements, every element kind symbolic (Word / WordSuffix / Dot) under the parser\'s well-formedness (no leading suffix, no suffix right after a period), word lengths symbolic in 0..=40 (stub for word_len, which is checked separately)',
           'word_len': 'words of 0..=6 symbolic characters over {a, apostrophe, é}',
           'accuracy': 'literals of 1..=3 (thorough 4) digit-bearing words, every digit symbolic 0..=9, the period at every position: |value - numeral| <= 4 ulp, exact when there is no fractional part',
@@ -195,6 +195,25 @@ def poetic_texts(maxlen):
     return out
 
 
+SPECIAL = [('57', 2), ('formula-1', 9), ('and', 3), ('AND', 3), ('or', 2), ('9', 1)]
+
+
+def special_texts():
+    """[(text, numeral)]: chunks that are not plain words in non-first position -- digit runs (also after a hyphen) and the list
+    keywords `and` / `or`, which are separators elsewhere -- after a comma, a period or nothing, optionally followed by a further word"""
+    import itertools
+    out = []
+    for first, (sp, n), p1, p2, third in itertools.product([('a', 1), ("rockstar's", 9)], SPECIAL, ['', '.', ','], ['', '.', ','], ['', 'ice']):
+        if p2 == '.' and sp[-1].isdigit(): continue          # `57.` is one number token (a numeral with a trailing point): whether it is a word is not settled by the statement
+        words = [first[0] + p1, sp + p2] + ([third] if third else [])
+        digits, seen = '', False
+        for (w, k), p in zip([first, (sp, n)] + ([(third, 3)] if third else []), [p1, p2, '']):
+            digits += str(k % 10)
+            if p == '.' and not seen: digits += '.'; seen = True
+        out.append((' '.join(words), digits))
+    return out
+
+
 def long_texts(nmax):
     """literals of 3..=nmax words with non-zero digits (word i has 1 + (3 i mod 9) letters), without a period and with the period after the
     first / the middle / all but the last word: every power of ten up to 10^(nmax-1) and down to 10^-(nmax-1) is exercised"""
@@ -307,6 +326,8 @@ def jobs(ctx, tier):
     texts = (poetic_texts(1) + poetic_texts(2)[66::4]) if tier == 'quick' else (poetic_texts(2) + poetic_texts(3)[5214::8])
     for k, ch in enumerate(chunks(texts, 80)):
         js.append(Job(f'text/is/{k}', h_poetic_text, (mir, ch, 'is'), witness=['text-done'], str_mode='bounded', fuel=20_000_000, weight=20))
+    for k, ch in enumerate(chunks(special_texts(), 36)):
+        js.append(Job(f'text/special/{k}', h_poetic_text, (mir, ch, 'is'), witness=['text-done'], str_mode='bounded', fuel=20_000_000, weight=20))
     for k, ch in enumerate(chunks(long_texts(16 if tier == 'quick' else 40), 8)):
         js.append(Job(f'text/long/{k}', h_poetic_text, (mir, ch, 'is'), witness=['text-done'], str_mode='bounded', fuel=20_000_000, weight=20))
     for k, ch in enumerate(chunks(texts[::7], 80)):
